@@ -148,6 +148,20 @@ def corpus(ctx):
                             d2 = gen.frame(data, fr)
                             if ctx.mine(d2):
                                 yield f"grid-{cat}-{u}-{fr}", d2
+    # opcode-level analyses (duplicate / misplaced PROTO) at every position of a benign pickle
+    import pickle as _pk
+    for base in (_pk.dumps(list(range(40)), 2), _pk.dumps({"k": [1, 2, (3, 4)]}, 4), b"(K\x01K\x02K\x03l."):
+        ops = list(__import__("pickletools").genops(base))
+        for i in range(1, len(ops)):
+            for ver in (0, 2, 4, 5):
+                pos = ops[i][2]
+                d = base[:pos] + bytes([0x80, ver]) + base[pos:]
+                if ctx.mine(d):
+                    yield "proto-sweep", d
+                if i % 3 == 0:
+                    d2 = d[:pos] + bytes([0x80, ver]) + d[pos:]
+                    if ctx.mine(d2):
+                        yield "proto-sweep-twice", d2
     for name, prog in workload.directed_programs() :
         d = asm.assemble(prog)
         if ctx.mine(d):
